@@ -631,6 +631,107 @@ pub fn normalize_expr(e: &mut syn::Expr) {
     Normalizer.visit_expr_mut(e);
 }
 
+// ---------------------------------------------------------------- new single-use helper methods are read in place
+
+/// A private method that is not in the reviewed decomposition (`reviewed` = names listed in refdata/private_fns.json
+/// for this file), takes only `self`, is called exactly once in the file as a whole statement (`self.h();` /
+/// `self.h()?;`) and returns `()` or `Result<(), _>` without an early `return Ok`: its body is spliced into the call
+/// site and the method is dropped. Splitting a function in two is then read as the unsplit function.
+fn inline_new_helpers(f: &mut syn::File, reviewed: &BTreeSet<String>) {
+    // candidates
+    let mut cands: Vec<(String, syn::Block, bool)> = vec![]; // name, body, returns Result
+    for it in &f.items {
+        if let syn::Item::Impl(i) = it {
+            if i.trait_.is_some() {
+                continue;
+            }
+            for ii in &i.items {
+                if let syn::ImplItem::Fn(m) = ii {
+                    let name = m.sig.ident.to_string();
+                    if reviewed.contains(&name) || matches!(m.vis, syn::Visibility::Public(_)) || m.sig.inputs.len() != 1 || !matches!(m.sig.inputs.first(), Some(syn::FnArg::Receiver(_))) || !m.sig.generics.params.is_empty() {
+                        continue;
+                    }
+                    let ret = match &m.sig.output {
+                        syn::ReturnType::Default => Some(false),
+                        syn::ReturnType::Type(_, t) => {
+                            let tt = sm::tsc(t);
+                            if tt == "()" { Some(false) } else if tt.starts_with("Result<(),") { Some(true) } else { None }
+                        }
+                    };
+                    let Some(is_result) = ret else { continue };
+                    let body_t = sm::tsc(&m.block);
+                    if body_t.contains("returnOk(") || body_t.contains("return;") {
+                        continue;
+                    }
+                    cands.push((name, m.block.clone(), is_result));
+                }
+            }
+        }
+    }
+    if cands.is_empty() {
+        return;
+    }
+    let whole = sm::tsc(f);
+    for (name, body, is_result) in cands {
+        let call_q = format!("self.{}()?;", name);
+        let call_p = format!("self.{}();", name);
+        let n_calls = whole.matches(&format!(".{}(", name)).count();
+        let stmt_calls = if is_result { whole.matches(&call_q).count() } else { whole.matches(&call_p).count() };
+        if n_calls != 1 || stmt_calls != 1 {
+            continue;
+        }
+        // splice
+        struct Splice<'a> {
+            name: &'a str,
+            body: &'a syn::Block,
+            is_result: bool,
+            done: bool,
+        }
+        impl<'a> VisitMut for Splice<'a> {
+            fn visit_block_mut(&mut self, b: &mut syn::Block) {
+                let want = if self.is_result { format!("self.{}()?;", self.name) } else { format!("self.{}();", self.name) };
+                let want_tail = if self.is_result { format!("self.{}()?", self.name) } else { format!("self.{}()", self.name) };
+                if let Some(pos) = b.stmts.iter().position(|s| {
+                    let t = sm::tsc(s);
+                    t == want || t == want_tail
+                }) {
+                    let mut ins = self.body.stmts.clone();
+                    // a trailing `Ok(())` of the helper is the fall-through of the caller
+                    if self.is_result {
+                        if let Some(syn::Stmt::Expr(e, None)) = ins.last() {
+                            if sm::tsc(e) == "Ok(())" {
+                                ins.pop();
+                            }
+                        }
+                    }
+                    let tail: Vec<syn::Stmt> = b.stmts.drain(pos + 1..).collect();
+                    b.stmts.pop();
+                    b.stmts.extend(ins);
+                    b.stmts.extend(tail);
+                    self.done = true;
+                }
+                visit_mut::visit_block_mut(self, b);
+            }
+        }
+        let mut sp = Splice { name: &name, body: &body, is_result, done: false };
+        sp.visit_file_mut(f);
+        if sp.done {
+            for it in f.items.iter_mut() {
+                if let syn::Item::Impl(i) = it {
+                    i.items.retain(|ii| !matches!(ii, syn::ImplItem::Fn(m) if m.sig.ident == name));
+                }
+            }
+        }
+    }
+}
+
+pub fn normalize_file_with(f: &mut syn::File, reviewed_private_fns: Option<&BTreeSet<String>>) {
+    if let Some(r) = reviewed_private_fns {
+        inline_new_helpers(f, r);
+    }
+    normalize_file(f);
+}
+
 pub fn normalize_file(f: &mut syn::File) {
     // two passes: the second one sees the tail positions created by the first (let-else, tail returns)
     Normalizer.visit_file_mut(f);
